@@ -4,7 +4,7 @@
     scan's removals and the listing afterwards are the same over the memory-store model, the
     file-store model and StoreSpec. *)
 From Coq Require Import List Arith Lia ZArith.
-From IV Require Import Base.Bytes Base.BytesFacts Model.StoreSpec Model.StoreSpecImpl Model.MemStore Model.FileStore Model.Retention Model.RetentionLoop Proofs.StoreSpecFacts Proofs.MemStoreLimits Proofs.MemStoreRefine Proofs.FileStoreRefine Proofs.Retention.
+From IV Require Import Base.Bytes Base.BytesFacts Model.StoreSpec Model.StoreSpecImpl Model.MemStore Model.FileStore Model.Retention Model.RetentionLoop Proofs.StoreSpecFacts Proofs.StoreSpecLimits Proofs.MemStoreLimits Proofs.MemStoreRefine Proofs.FileStoreRefine Proofs.Retention.
 Import ListNotations.
 
 (** The removals the callback issues for one snapshot. *)
@@ -165,4 +165,48 @@ Proof.
   cbv zeta. split.
   - rewrite loop_over_storespec, final_spec_app. reflexivity.
   - split; [apply mem_refines_spec|]. intros ticks Hm Hf. apply file_refines_spec; assumption.
+Qed.
+
+(* ------------------------------------------------------------------ the user-level statement *)
+
+(** retention_user_level: what an operator relies on. Take ANY history of store operations from
+    the empty store (deliveries with cap evictions and size-limit evictions, removals, purges,
+    mark-seen, listings) under any configuration, let a retention scan walk the mailboxes the
+    store itself enumerates, and list any mailbox afterwards:
+      - the listing holds exactly the messages of that mailbox whose date is not before the
+        cutoff, in arrival order, with their content, flags and sizes untouched;
+      - the scan touched nothing but message presence (add counters, hence future ids, unchanged)
+        and the per-mailbox cap still holds;
+      - the memory-store model and — for c_max = 0 under C07's environment hypothesis — the
+        file-store model answer every operation of history + scan + listing exactly as StoreSpec. *)
+Theorem retention_user_level cfg cutoff ops mb :
+  let st := final_spec cfg spec_init ops in
+  let sops := scan_ops cfg cutoff (map fst (spec_visit st)) st in
+  let st' := final_spec cfg spec_init (ops ++ sops) in
+  let all := ops ++ sops ++ [Lst mb] in
+  box mb (live st') = filter (fun e => negb (expired cutoff (e_msg e))) (box mb (live st)) /\
+  counts st' = counts st /\
+  (c_cap cfg <> 0%nat -> (length (box mb (live st')) <= c_cap cfg)%nat) /\
+  (exists pre, run_spec cfg spec_init all = pre ++
+     [(OList (map view_of (filter (fun e => negb (expired cutoff (e_msg e))) (box mb (live st)))), [])]) /\
+  run_mem cfg all = run_spec cfg spec_init all /\
+  (forall ticks, c_max cfg = 0%N -> file_fresh cfg (file_init ticks, []) all ->
+     run_file cfg ticks all = run_spec cfg spec_init all).
+Proof.
+  cbv zeta.
+  set (st := final_spec cfg spec_init ops).
+  assert (S : SInv st) by (apply final_spec_SInv; apply SInv_init).
+  assert (E : final_spec cfg spec_init (ops ++ scan_ops cfg cutoff (map fst (spec_visit st)) st)
+              = scan cfg cutoff (map fst (spec_visit st)) st)
+    by (rewrite final_spec_app; symmetry; apply scan_over_storespec).
+  rewrite E. split; [apply scan_exact_all; exact S|]. split; [apply scan_counts|]. split.
+  - intros Hc. rewrite scan_exact_all by exact S.
+    pose proof (StoreSpecLimits.cap_bound cfg ops mb Hc) as B. fold st in B.
+    eapply Nat.le_trans; [|exact B]. clear. induction (box mb (live st)) as [|e l IH]; [apply le_n|].
+    cbn [filter]. destruct (young cutoff e); cbn [length]; lia.
+  - split.
+    + exists (run_spec cfg spec_init (ops ++ scan_ops cfg cutoff (map fst (spec_visit st)) st)).
+      rewrite app_assoc, run_spec_app. f_equal. rewrite E. cbn [run_spec exec_spec].
+      rewrite scan_exact_all by exact S. reflexivity.
+    + split; [apply mem_refines_spec|]. intros ticks Hm Hf. apply file_refines_spec; assumption.
 Qed.
